@@ -35,6 +35,7 @@ NPROC = int(os.environ.get("TWV_NPROC", "16"))
 # the per-sub-check thorough budgets in the property modules are multiplied by this factor (generated cases only;
 # enumerations have their own thorough bounds)
 THOROUGH_SCALE = float(os.environ.get("TWV_THOROUGH_SCALE", "5"))
+QUICK_SCALE = float(os.environ.get("TWV_QUICK_SCALE", "3"))
 
 
 def _setup_path():
@@ -482,7 +483,7 @@ def main(argv=None):
             budget = 0
         elif tier == "quick":
             nsh = max(1, min(s.shards, NPROC // max(1, len(subs))))
-            budget = -(-s.quick // nsh)
+            budget = -(-int(s.quick * QUICK_SCALE) // nsh)
         else:
             nsh = max(1, min(s.shards, NPROC))
             budget = -(-int(s.thorough * THOROUGH_SCALE) // nsh)
